@@ -26,7 +26,20 @@ Proof. vm_compute. reflexivity. Qed.
 Lemma gen_table_matches_published : table_matchesb RT SpecTable = true.
 Proof. vm_compute. reflexivity. Qed.
 
-(* its value lists are sorted.  This one does not depend on the data: init sorts every list. *)
+(* ---- the code's own init(): obligations on the RUN-TIME DUMP of polyConditions ----
+   (GenPolygon.poly_runtime_rules; a removed, partial or wrong sort in /repo's init() breaks the
+   first, any other difference between what init() builds and the model of init the second) *)
+Lemma gen_runtime_dump_sorted : table_sortedb runtime_table = true.
+Proof. vm_compute. reflexivity. Qed.
+
+Lemma gen_runtime_dump_is_model_init : rules_eqb runtime_table RT = true.
+Proof. vm_compute. reflexivity. Qed.
+
+Lemma gen_runtime_condition_names :
+  strs_eqb poly_runtime_cond_names [cond_all; cond_whitelist; cond_blacklist] = true.
+Proof. vm_compute. reflexivity. Qed.
+
+(* the MODEL's init sorts (whatever the data): this is a fact about Model.init_table only *)
 Lemma gen_table_sorted : table_sortedb RT = true.
 Proof. apply init_table_sorted. Qed.
 
